@@ -47,6 +47,9 @@ var c10Alphabet = []c10child{
 	{"F(G3)", func() geojson.Object {
 		return geojson.NewFeature(geojson.NewPolygon(geometry.NewPoly(c10G3, nil, nil)), `{"id":3}`)
 	}},
+	{"Lhuge", func() geojson.Object {
+		return geojson.NewLineString(geometry.NewLine([]geometry.Point{gpt(1e308, 0), gpt(1.25e308, 0)}, nil))
+	}},
 }
 
 // probes: objects of every kind
@@ -70,6 +73,10 @@ func c10Probes() []geojson.Object {
 		geojson.NewFeature(geojson.NewGeometryCollection([]geojson.Object{geojson.NewPoint(gpt(0, 0)), geojson.NewPoint(gpt(1, 1))}), ""),
 		geojson.NewLineString(geometry.NewLine(nil, nil)),
 		geojson.NewCircle(gpt(0, 0), 300000, 64), geojson.NewCircle(gpt(5, 5), 10000, 64), geojson.NewCircle(gpt(0.5, 0.5), 60000, 12),
+		// coordinates near the top of the float64 range (sums overflow)
+		geojson.NewLineString(geometry.NewLine([]geometry.Point{gpt(1e308, 0), gpt(1.25e308, 0)}, nil)),
+		geojson.NewPolygon(sq(-1.5e308, -1.5e308, 1.5e308, 1.5e308)),
+		geojson.NewPoint(gpt(1.1e308, 0)),
 		// nested collections as arguments: a part that is not contained inside an inner collection, followed by one that is
 		geojson.NewGeometryCollection([]geojson.Object{geojson.NewMultiPoint([]geometry.Point{gpt(5, 5)}), geojson.NewPoint(gpt(0, 0))}),
 		geojson.NewGeometryCollection([]geojson.Object{geojson.NewMultiPoint([]geometry.Point{gpt(0, 0)}), geojson.NewPoint(gpt(5, 5))}),
